@@ -37,7 +37,7 @@ PROPERTY = "C05"
 RULE = ("enumeration of (family, parameterisation, matrix structure, storage, dimension class, bc, order, physical dim, "
         "rejection regime) with seeded parameter values; a case is non-trivial when the deciding monitor compared "
         "something: the read-off affine map against the Hessian of the object's own logd (Gaussian types), a KS / moment "
-        "test on >= 4e4 draws against the quadrature CDF of the object's own logd (other families), or an observed "
+        "test on >= 2.5e4 draws against the quadrature CDF of the object's own logd (other families), or an observed "
         "refusal with _sample not entered (conditionals); distinct = distinct descriptors")
 ASSUMPTIONS = ["coordinates of the univariate families (Normal, Gamma, InverseGamma, Beta, Laplace, Uniform, Cauchy, MHN) are "
                "documented as independent, so the marginal law of coordinate i is the normalised slice of the object's own "
@@ -46,12 +46,12 @@ ASSUMPTIONS = ["coordinates of the univariate families (Normal, Gamma, InverseGa
                "directions in the null space of an improper (intrinsic GMRF) precision are not judged",
                "where the normalised logpdf is refused (sparse matrices without cholmod) the un-normalised _logupdf that "
                "logpdf itself is built from is used as the object's density"]
-NS_STAT = {"quick": 40000, "thorough": 1000000}
+NS_STAT = {"quick": 25000, "thorough": 1000000}
 N_KNOTS = {"quick": 300, "thorough": 600}
 REQUIRED_COUNTERS = {
     "quick": {"affine_map_read": 180, "cov_vs_logd_hessian_checked": 90, "mode_checked": 90, "stream_replay_checked": 550,
               "rng_reproducible_checked": 100, "global_state_checked": 100, "draws_distinct_checked": 100, "wrapper_shape_checked": 300,
-              "ks_tests": 20, "moment_tests": 35, "independence_tests": 30, "conditional_refusal_checked": 15, "mhn_regime_draws": 200000},
+              "ks_tests": 20, "moment_tests": 35, "independence_tests": 30, "conditional_refusal_checked": 15, "mhn_regime_draws": 150000},
     "thorough": {"affine_map_read": 340, "cov_vs_logd_hessian_checked": 170, "mode_checked": 170, "stream_replay_checked": 1000,
                  "rng_reproducible_checked": 190, "global_state_checked": 180, "draws_distinct_checked": 180, "wrapper_shape_checked": 550,
                  "ks_tests": 45, "moment_tests": 75, "independence_tests": 60, "conditional_refusal_checked": 15, "mhn_regime_draws": 4000000}}
@@ -83,7 +83,7 @@ def cases(tier, seed):
     k = 0
     for form, shape, storage in _gauss_forms():
         for dimclass in ("small", "switch"):
-            for rep in range(reps):
+            for rep in range(reps if (dimclass == "small" or tier == "thorough") else 1):
                 if dimclass == "small":
                     n = rnd.choice(_SMALL)
                     if shape == "scalar" and rep % 2 == 1:
